@@ -6,13 +6,14 @@ UNITS = ["every unit of C04-C09 (protocol files, lmq.c, list.c, pollable.c)", "s
 RULE = "The protocol skeletons that end with close+fini or change an option between the halves of an exchange, with the ownership / leak / sized-free monitors on; plus the queue and message kernels."
 BOUNDS = "those of the skeleton families (C04-C09) and kernels (C17, C18)"
 OUTSIDE = "nng_init/nng_fini global balance over units that are not encoded; real threads"
-ASSUMPTIONS = ["message ownership is tracked by the message model (reference counts, one free per reference)", "sized-free accounting in env_alloc.c"]
+GROUP_WITNESS = False
+ASSUMPTIONS = ["open findings F6b (non-blocking BUS send refused) and F7 (non-blocking respondent send refused) are excluded by -DKF_BUS_NONBLOCK_EAGAIN / -DKF_RESP_NONBLOCK_EAGAIN: they are C09/C07/C15 matters; the refused send is checked to fail cleanly", "message ownership is tracked by the message model (reference counts, one free per reference)", "sized-free accounting in env_alloc.c"]
 
 
 def queries(tier):
     def pred(sk, q):
         return sk.endswith(" Z") or " O(" in sk or " B(" in sk or " Q(" in sk or " N(" in sk or " P(" in sk
-    qs = _cross.pick(tier, pred, 22 if tier == "quick" else 100000)
+    qs = _cross.pick(tier, pred, 22 if tier == "quick" else 100000, bus_excl=True)
     for q in C18.queries(tier):
         if q.name.startswith(("lmq-fini", "lmq-flush", "lmq-resize", "msgq-fini", "msgq-close", "msgq-resize")):
             qs.append(q)
